@@ -8,7 +8,18 @@ cd /repo
 for c in $(git cherry main "ws-$ID" | awk '$1=="+"{print $2}'); do
   if [ "$(git rev-list --parents -n1 $c | wc -w)" -gt 2 ]; then continue; fi
   echo "cherry-pick $(git log --oneline -n1 $c)"
-  git cherry-pick "$c" >/dev/null 2>&1 || { git status --short | grep '^U' ; echo "CHERRY-PICK CONFLICT $c"; exit 1; }
+  if ! git cherry-pick "$c" >/dev/null 2>&1; then
+    if [ "$(git status --short | grep '^U' | awk '{print $2}')" = "src/verif_hooks.rs" ]; then
+      # every builder appends to the hook module: keep ours and append what this commit added
+      git checkout --ours src/verif_hooks.rs
+      git diff "$c~1" "$c" -- src/verif_hooks.rs | grep '^+' | grep -v '^+++' | sed 's/^+//' >> src/verif_hooks.rs
+      git add src/verif_hooks.rs
+      git -c core.editor=true cherry-pick --continue >/dev/null 2>&1 || { echo "CHERRY-PICK CONTINUE FAILED $c"; exit 1; }
+    else
+      git status --short | grep '^U'; echo "CHERRY-PICK CONFLICT $c"; exit 1
+    fi
+  fi
+  cargo build --offline --features verif-hooks 2>&1 | grep -E '^error' -A6 | head -20
   echo "  -> $(git rev-parse --short HEAD)  (was $(git rev-parse --short $c))"
 done
 cd /verif
